@@ -87,6 +87,16 @@ func buildRunner(src string, flavour int) (r runner, stop func(), err error) {
 	}, stop, nil
 }
 
+// scenarioSourcePhase: phase 0 is scenarioSource; phase 1 runs the same code
+// as the body of a deferred function started by a panic that is not recovered.
+func scenarioSourcePhase(bcode int, busy, ready bool, phase int) string {
+	src := scenarioSource(bcode, busy, ready)
+	if phase == 0 {
+		return src
+	}
+	return "\tfunc() {\n\t\tdefer func() {\n" + src + "\t\t}()\n\t\tpanic(\"boom\")\n\t}()\n"
+}
+
 // scenarioSource: one blocking instruction, ready or not, then the end.
 func scenarioSource(bcode int, busy, ready bool) string {
 	if busy {
@@ -117,7 +127,7 @@ func scenarioSource(bcode int, busy, ready bool) string {
 }
 
 // observe runs r and classifies what happens: 0 still running after wait,
-// 1 own outcome (nil), 2 the context's error, 9 anything else.
+// 1 own outcome (nil), 2 the context's error, 3 a *PanicError, 9 anything else.
 // mode 0: no context; 1: a context never cancelled (cancelled after the observation); 2: cancelled after delay.
 func observe(r runner, mode int, delay, wait time.Duration) (code int, latency time.Duration, detail string) {
 	var ctx context.Context
@@ -163,6 +173,9 @@ func classifyErr(err error, ctx context.Context) int {
 	case ctx != nil && ctx.Err() != nil && err == ctx.Err():
 		return 2
 	}
+	if _, ok := err.(*scriggo.PanicError); ok {
+		return 3
+	}
 	return 9
 }
 
@@ -176,6 +189,7 @@ type cancelCase struct {
 	Timeout bool   `json:"timeout"` // context.WithTimeout instead of an explicit cancel
 	Pre     bool   `json:"pre"`     // the context is cancelled before Run
 	Shape   string `json:"shape"`
+	Panics  bool   `json:"panics"` // code that ends does so with an unrecovered panic: its own outcome is a *PanicError
 }
 
 func genBlocker(r *rand.Rand, ends bool) (decl, stmt, name string) {
@@ -235,7 +249,7 @@ func genCancelCase(r *rand.Rand) cancelCase {
 	if r.Intn(2) == 0 {
 		sb.WriteString("\tw := 0\n\tfor k := 0; k < 50; k++ {\n\t\tw += k\n\t}\n\t_ = w\n")
 	}
-	wrap := r.Intn(9)
+	wrap := r.Intn(15)
 	ind := func(s string) string { return "\t" + strings.ReplaceAll(s, "\n", "\n\t") + "\n" }
 	switch wrap {
 	case 0:
@@ -281,9 +295,35 @@ func genCancelCase(r *rand.Rand) cancelCase {
 	case 7:
 		sb.WriteString("\tgo func() {\n\t\tgo func() {\n\t\t\tq := make(chan int)\n\t\t\t<-q\n\t\t}()\n\t\tq2 := make(chan int)\n\t\tq2 <- 1\n\t}()\n" + ind(stmt))
 		c.Shape = name + "/with-nested-blocked-goroutines"
-	default:
+	case 8:
 		sb.WriteString("\tvar rec func(d int)\n\trec = func(d int) {\n\t\tif d > 0 {\n\t\t\trec(d - 1)\n\t\t\treturn\n\t\t}\n\t" + ind(stmt) + "\t}\n\trec(" + fmt.Sprint(1+r.Intn(40)) + ")\n")
 		c.Shape = name + "/in-recursion"
+	// ---- the code runs while a panic that is not recovered is pending:
+	// it is the body of a deferred function started by the panic
+	case 9:
+		sb.WriteString("\tfunc() {\n\t\tdefer func() {\n\t\t" + ind(stmt) + "\t\t}()\n\t\tpanic(\"boom\")\n\t}()\n")
+		c.Shape, c.Panics = name+"/in-deferred-after-panic", true
+	case 10:
+		// the panic is raised in a callee, the deferred function belongs to the caller
+		sb.WriteString("\tfunc() {\n\t\tdefer func() {\n\t\t" + ind(stmt) + "\t\t}()\n\t\tfunc() {\n\t\t\tfunc() {\n\t\t\t\tpanic(\"deep\")\n\t\t\t}()\n\t\t}()\n\t}()\n")
+		c.Shape, c.Panics = name+"/in-deferred-after-panic-in-callee", true
+	case 11:
+		// a run-time fault instead of panic(), other deferred calls around
+		fault := []string{"var mp map[string]int\n\t\tmp[\"a\"] = 1", "zero := 0\n\t\t_ = 1 / zero", "var arr []int\n\t\t_ = arr[3]"}[r.Intn(3)]
+		sb.WriteString("\tfunc() {\n\t\tdefer func() {\n\t\t}()\n\t\tdefer func() {\n\t\t" + ind(stmt) + "\t\t}()\n\t\tdefer func() {\n\t\t}()\n\t\t" + fault + "\n\t}()\n")
+		c.Shape, c.Panics = name+"/in-deferred-after-runtime-fault", true
+	case 12:
+		// a deferred function panics again, the next deferred function runs the code (two pending panics)
+		sb.WriteString("\tfunc() {\n\t\tdefer func() {\n\t\t" + ind(stmt) + "\t\t}()\n\t\tdefer func() {\n\t\t\tpanic(\"second\")\n\t\t}()\n\t\tpanic(\"first\")\n\t}()\n")
+		c.Shape, c.Panics = name+"/in-deferred-after-nested-panic", true
+	case 13:
+		// the deferred function calls a function that runs the code
+		sb.WriteString("\twork := func() {\n\t" + ind(stmt) + "\t}\n\tfunc() {\n\t\tdefer func() {\n\t\t\twork()\n\t\t}()\n\t\tpanic(\"boom\")\n\t}()\n")
+		c.Shape, c.Panics = name+"/in-call-from-deferred-after-panic", true
+	default:
+		// the panic is recovered first: nothing is pending any more
+		sb.WriteString("\tfunc() {\n\t\tdefer func() {\n\t\t\trecover()\n\t\t" + ind(stmt) + "\t\t}()\n\t\tpanic(\"boom\")\n\t}()\n")
+		c.Shape = name + "/in-deferred-after-recovered-panic"
 	}
 	c.Src = sb.String()
 	c.DelayUs = r.Intn(30000)
@@ -312,7 +352,8 @@ func runCancelCase(cc cancelCase) (sig string, detail map[string]any, latency ti
 		select {
 		case err := <-done:
 			cancel()
-			if err != nil {
+			_, isPanic := err.(*scriggo.PanicError)
+			if (!cc.Panics && err != nil) || (cc.Panics && !isPanic) {
 				return "finished-first-but-not-own-outcome", map[string]any{"case": cc, "err": fmt.Sprint(err)}, 0
 			}
 			return "", nil, 0
@@ -376,21 +417,23 @@ func registerCancel() {
 	// correspondence: the deterministic scenarios of CancelM.scenario
 	Register("C11-cases", func(c *Ctx) {
 		type job struct {
-			bcode, busy, ready, mode, flavour int
-			res                             int
+			bcode, busy, ready, mode, flavour, phase int
+			res                                    int
 		}
 		var jobs []*job
-		for flavour := 0; flavour < 2; flavour++ {
-			for mode := 0; mode < 3; mode++ {
-				for bcode := 0; bcode < 4; bcode++ {
-					for ready := 0; ready < 2; ready++ {
-						if ready == 1 && mode == 2 {
-							continue // the code may end before or after the cancellation: not deterministic
+		for phase := 0; phase < 2; phase++ {
+			for flavour := 0; flavour < 2; flavour++ {
+				for mode := 0; mode < 3; mode++ {
+					for bcode := 0; bcode < 4; bcode++ {
+						for ready := 0; ready < 2; ready++ {
+							if ready == 1 && mode == 2 {
+								continue // the code may end before or after the cancellation: not deterministic
+							}
+							jobs = append(jobs, &job{bcode: bcode, ready: ready, mode: mode, flavour: flavour, phase: phase})
 						}
-						jobs = append(jobs, &job{bcode: bcode, ready: ready, mode: mode, flavour: flavour})
 					}
+					jobs = append(jobs, &job{busy: 1, mode: mode, flavour: flavour, phase: phase})
 				}
-				jobs = append(jobs, &job{busy: 1, mode: mode, flavour: flavour})
 			}
 		}
 		var wg sync.WaitGroup
@@ -401,7 +444,7 @@ func registerCancel() {
 			go func(j *job) {
 				defer wg.Done()
 				defer func() { <-sem }()
-				r, _, err := buildRunner(scenarioSource(j.bcode, j.busy == 1, j.ready == 1), j.flavour)
+				r, _, err := buildRunner(scenarioSourcePhase(j.bcode, j.busy == 1, j.ready == 1, j.phase), j.flavour)
 				if err != nil {
 					j.res = 8
 					return
@@ -415,7 +458,7 @@ func registerCancel() {
 		}
 		wg.Wait()
 		for _, j := range jobs {
-			c.Line("cancel", fmt.Sprintf("%02x%02x%02x%02x", j.bcode, j.busy, j.ready, j.mode), fmt.Sprintf("ok:%02x", j.res))
+			c.Line("cancel", fmt.Sprintf("%02x%02x%02x%02x%02x", j.bcode, j.busy, j.ready, j.mode, j.phase), fmt.Sprintf("ok:%02x", j.res))
 			c.Count(fmt.Sprintf("result_%d", j.res))
 		}
 	})
@@ -437,6 +480,7 @@ func registerCancel() {
 				cc.Timeout, _ = m["timeout"].(bool)
 				cc.Pre, _ = m["pre"].(bool)
 				cc.Shape, _ = m["shape"].(string)
+				cc.Panics, _ = m["panics"].(bool)
 				cases = append(cases, cc)
 			}
 		} else {
